@@ -4,6 +4,16 @@
 #include <yaclib/fault/inject.hpp>
 
 #include <type_traits>
+#ifdef YACLIB_VERIF
+#  include <yaclib/fault/verif_hook.hpp>
+#  define YACLIB_VERIF_ATOMIC(op, order, order_fail, expected)                                                          \
+    do {                                                                                                               \
+      if (::yaclib::verif::gHooks != nullptr && ::yaclib::verif::gHooks->atomic_desc != nullptr) {                      \
+        ::yaclib::verif::gHooks->atomic_desc(this, sizeof(Impl), (op), static_cast<int>(order),                            \
+                                             static_cast<int>(order_fail), (expected));                                 \
+      }                                                                                                                \
+    } while (false)
+#endif
 
 namespace yaclib::detail {
 
@@ -21,6 +31,9 @@ class AtomicBase : public AtomicWait<Impl, T> {
   using Base::is_lock_free;
 
   T operator=(T desired) noexcept {
+#ifdef YACLIB_VERIF
+    YACLIB_VERIF_ATOMIC(::yaclib::verif::kStore, std::memory_order_seq_cst, std::memory_order_seq_cst, nullptr);
+#endif
     YACLIB_INJECT_FAULT(auto r = Impl::operator=(desired));
     return r;
   }
@@ -30,6 +43,9 @@ class AtomicBase : public AtomicWait<Impl, T> {
   }
 
   void store(T desired, std::memory_order order = std::memory_order_seq_cst) noexcept {
+#ifdef YACLIB_VERIF
+    YACLIB_VERIF_ATOMIC(::yaclib::verif::kStore, order, order, nullptr);
+#endif
     YACLIB_INJECT_FAULT(Impl::store(desired, order));
   }
   void store(T desired, std::memory_order order = std::memory_order_seq_cst) volatile noexcept {
@@ -37,6 +53,9 @@ class AtomicBase : public AtomicWait<Impl, T> {
   }
 
   T load(std::memory_order order = std::memory_order_seq_cst) const noexcept {
+#ifdef YACLIB_VERIF
+    YACLIB_VERIF_ATOMIC(::yaclib::verif::kLoad, order, order, nullptr);
+#endif
     YACLIB_INJECT_FAULT(auto r = Impl::load(order));
     return r;
   }
@@ -54,6 +73,9 @@ class AtomicBase : public AtomicWait<Impl, T> {
   }
 
   T exchange(T desired, std::memory_order order = std::memory_order_seq_cst) noexcept {
+#ifdef YACLIB_VERIF
+    YACLIB_VERIF_ATOMIC(::yaclib::verif::kRmw, order, order, nullptr);
+#endif
     YACLIB_INJECT_FAULT(auto r = Impl::exchange(desired, order));
     return r;
   }
@@ -67,6 +89,9 @@ class AtomicBase : public AtomicWait<Impl, T> {
       expected = load(failure);
       return false;
     }
+#ifdef YACLIB_VERIF
+    YACLIB_VERIF_ATOMIC(::yaclib::verif::kCas, success, failure, &expected);
+#endif
     YACLIB_INJECT_FAULT(auto r = Impl::compare_exchange_weak(expected, desired, success, failure));
     return r;
   }
@@ -84,6 +109,9 @@ class AtomicBase : public AtomicWait<Impl, T> {
       expected = load(order);
       return false;
     }
+#ifdef YACLIB_VERIF
+    YACLIB_VERIF_ATOMIC(::yaclib::verif::kCas, order, order, &expected);
+#endif
     YACLIB_INJECT_FAULT(auto r = Impl::compare_exchange_weak(expected, desired, order));
     return r;
   }
@@ -97,6 +125,9 @@ class AtomicBase : public AtomicWait<Impl, T> {
     return r;
   }
   bool compare_exchange_strong(T& expected, T desired, std::memory_order success, std::memory_order failure) noexcept {
+#ifdef YACLIB_VERIF
+    YACLIB_VERIF_ATOMIC(::yaclib::verif::kCas, success, failure, &expected);
+#endif
     YACLIB_INJECT_FAULT(auto r = Impl::compare_exchange_strong(expected, desired, success, failure));
     return r;
   }
@@ -106,6 +137,9 @@ class AtomicBase : public AtomicWait<Impl, T> {
     return r;
   }
   bool compare_exchange_strong(T& expected, T desired, std::memory_order order = std::memory_order_seq_cst) noexcept {
+#ifdef YACLIB_VERIF
+    YACLIB_VERIF_ATOMIC(::yaclib::verif::kCas, order, order, &expected);
+#endif
     YACLIB_INJECT_FAULT(auto r = Impl::compare_exchange_strong(expected, desired, order));
     return r;
   }
@@ -132,6 +166,9 @@ class AtomicFloatingBase<Impl, T, true> : public AtomicBase<Impl, T> {
   using Base::Base;
 
   T fetch_add(T arg, std::memory_order order = std::memory_order_seq_cst) noexcept {
+#ifdef YACLIB_VERIF
+    YACLIB_VERIF_ATOMIC(::yaclib::verif::kRmw, order, order, nullptr);
+#endif
     YACLIB_INJECT_FAULT(auto r = Impl::fetch_add(arg, order));
     return r;
   }
@@ -141,6 +178,9 @@ class AtomicFloatingBase<Impl, T, true> : public AtomicBase<Impl, T> {
   }
 
   T fetch_sub(T arg, std::memory_order order = std::memory_order_seq_cst) noexcept {
+#ifdef YACLIB_VERIF
+    YACLIB_VERIF_ATOMIC(::yaclib::verif::kRmw, order, order, nullptr);
+#endif
     YACLIB_INJECT_FAULT(auto r = Impl::fetch_sub(arg, order));
     return r;
   }
@@ -150,6 +190,9 @@ class AtomicFloatingBase<Impl, T, true> : public AtomicBase<Impl, T> {
   }
 
   T operator+=(T arg) noexcept {
+#ifdef YACLIB_VERIF
+    YACLIB_VERIF_ATOMIC(::yaclib::verif::kRmw, std::memory_order_seq_cst, std::memory_order_seq_cst, nullptr);
+#endif
     YACLIB_INJECT_FAULT(auto r = Impl::operator+=(arg));
     return r;
   }
@@ -159,6 +202,9 @@ class AtomicFloatingBase<Impl, T, true> : public AtomicBase<Impl, T> {
   }
 
   T operator-=(T arg) noexcept {
+#ifdef YACLIB_VERIF
+    YACLIB_VERIF_ATOMIC(::yaclib::verif::kRmw, std::memory_order_seq_cst, std::memory_order_seq_cst, nullptr);
+#endif
     YACLIB_INJECT_FAULT(auto r = Impl::operator-=(arg));
     return r;
   }
@@ -184,6 +230,9 @@ class AtomicIntegralBase<Impl, T, true> : public AtomicFloatingBase<Impl, T, tru
   using Base::Base;
 
   T fetch_and(T arg, std::memory_order order = std::memory_order_seq_cst) noexcept {
+#ifdef YACLIB_VERIF
+    YACLIB_VERIF_ATOMIC(::yaclib::verif::kRmw, order, order, nullptr);
+#endif
     YACLIB_INJECT_FAULT(auto r = Impl::fetch_and(arg, order));
     return r;
   }
@@ -193,6 +242,9 @@ class AtomicIntegralBase<Impl, T, true> : public AtomicFloatingBase<Impl, T, tru
   }
 
   T fetch_or(T arg, std::memory_order order = std::memory_order_seq_cst) noexcept {
+#ifdef YACLIB_VERIF
+    YACLIB_VERIF_ATOMIC(::yaclib::verif::kRmw, order, order, nullptr);
+#endif
     YACLIB_INJECT_FAULT(auto r = Impl::fetch_or(arg, order));
     return r;
   }
@@ -202,6 +254,9 @@ class AtomicIntegralBase<Impl, T, true> : public AtomicFloatingBase<Impl, T, tru
   }
 
   T fetch_xor(T arg, std::memory_order order = std::memory_order_seq_cst) noexcept {
+#ifdef YACLIB_VERIF
+    YACLIB_VERIF_ATOMIC(::yaclib::verif::kRmw, order, order, nullptr);
+#endif
     YACLIB_INJECT_FAULT(auto r = Impl::fetch_xor(arg, order));
     return r;
   }
@@ -211,6 +266,9 @@ class AtomicIntegralBase<Impl, T, true> : public AtomicFloatingBase<Impl, T, tru
   }
 
   T operator++() noexcept {
+#ifdef YACLIB_VERIF
+    YACLIB_VERIF_ATOMIC(::yaclib::verif::kRmw, std::memory_order_seq_cst, std::memory_order_seq_cst, nullptr);
+#endif
     YACLIB_INJECT_FAULT(auto r = ++static_cast<Impl&>(*this));
     return r;
   }
@@ -220,6 +278,9 @@ class AtomicIntegralBase<Impl, T, true> : public AtomicFloatingBase<Impl, T, tru
   }
 
   T operator++(int) noexcept {
+#ifdef YACLIB_VERIF
+    YACLIB_VERIF_ATOMIC(::yaclib::verif::kRmw, std::memory_order_seq_cst, std::memory_order_seq_cst, nullptr);
+#endif
     YACLIB_INJECT_FAULT(auto r = static_cast<Impl&>(*this)++);
     return r;
   }
@@ -229,6 +290,9 @@ class AtomicIntegralBase<Impl, T, true> : public AtomicFloatingBase<Impl, T, tru
   }
 
   T operator--() noexcept {
+#ifdef YACLIB_VERIF
+    YACLIB_VERIF_ATOMIC(::yaclib::verif::kRmw, std::memory_order_seq_cst, std::memory_order_seq_cst, nullptr);
+#endif
     YACLIB_INJECT_FAULT(auto r = --static_cast<Impl&>(*this));
     return r;
   }
@@ -238,6 +302,9 @@ class AtomicIntegralBase<Impl, T, true> : public AtomicFloatingBase<Impl, T, tru
   }
 
   T operator--(int) noexcept {
+#ifdef YACLIB_VERIF
+    YACLIB_VERIF_ATOMIC(::yaclib::verif::kRmw, std::memory_order_seq_cst, std::memory_order_seq_cst, nullptr);
+#endif
     YACLIB_INJECT_FAULT(auto r = static_cast<Impl&>(*this)--);
     return r;
   }
@@ -247,6 +314,9 @@ class AtomicIntegralBase<Impl, T, true> : public AtomicFloatingBase<Impl, T, tru
   }
 
   T operator&=(T arg) noexcept {
+#ifdef YACLIB_VERIF
+    YACLIB_VERIF_ATOMIC(::yaclib::verif::kRmw, std::memory_order_seq_cst, std::memory_order_seq_cst, nullptr);
+#endif
     YACLIB_INJECT_FAULT(auto r = Impl::operator&=(arg));
     return r;
   }
@@ -256,6 +326,9 @@ class AtomicIntegralBase<Impl, T, true> : public AtomicFloatingBase<Impl, T, tru
   }
 
   T operator|=(T arg) noexcept {
+#ifdef YACLIB_VERIF
+    YACLIB_VERIF_ATOMIC(::yaclib::verif::kRmw, std::memory_order_seq_cst, std::memory_order_seq_cst, nullptr);
+#endif
     YACLIB_INJECT_FAULT(auto r = Impl::operator|=(arg));
     return r;
   }
@@ -265,6 +338,9 @@ class AtomicIntegralBase<Impl, T, true> : public AtomicFloatingBase<Impl, T, tru
   }
 
   T operator^=(T arg) noexcept {
+#ifdef YACLIB_VERIF
+    YACLIB_VERIF_ATOMIC(::yaclib::verif::kRmw, std::memory_order_seq_cst, std::memory_order_seq_cst, nullptr);
+#endif
     YACLIB_INJECT_FAULT(auto r = Impl::operator^=(arg));
     return r;
   }
@@ -290,6 +366,9 @@ class Atomic<Impl, U*> : public AtomicBase<Impl, U*> {
   using Base::Base;
 
   U* fetch_add(std::ptrdiff_t arg, std::memory_order order = std::memory_order_seq_cst) noexcept {
+#ifdef YACLIB_VERIF
+    YACLIB_VERIF_ATOMIC(::yaclib::verif::kRmw, order, order, nullptr);
+#endif
     YACLIB_INJECT_FAULT(auto* r = Impl::fetch_add(arg, order));
     return r;
   }
@@ -299,6 +378,9 @@ class Atomic<Impl, U*> : public AtomicBase<Impl, U*> {
   }
 
   U* fetch_sub(std::ptrdiff_t arg, std::memory_order order = std::memory_order_seq_cst) noexcept {
+#ifdef YACLIB_VERIF
+    YACLIB_VERIF_ATOMIC(::yaclib::verif::kRmw, order, order, nullptr);
+#endif
     YACLIB_INJECT_FAULT(auto* r = Impl::fetch_sub(arg, order));
     return r;
   }
@@ -308,6 +390,9 @@ class Atomic<Impl, U*> : public AtomicBase<Impl, U*> {
   }
 
   U* operator++() noexcept {
+#ifdef YACLIB_VERIF
+    YACLIB_VERIF_ATOMIC(::yaclib::verif::kRmw, std::memory_order_seq_cst, std::memory_order_seq_cst, nullptr);
+#endif
     YACLIB_INJECT_FAULT(auto* r = ++static_cast<Impl&>(*this));
     return r;
   }
@@ -317,6 +402,9 @@ class Atomic<Impl, U*> : public AtomicBase<Impl, U*> {
   }
 
   U* operator++(int) noexcept {
+#ifdef YACLIB_VERIF
+    YACLIB_VERIF_ATOMIC(::yaclib::verif::kRmw, std::memory_order_seq_cst, std::memory_order_seq_cst, nullptr);
+#endif
     YACLIB_INJECT_FAULT(auto* r = static_cast<Impl&>(*this)++);
     return r;
   }
@@ -326,6 +414,9 @@ class Atomic<Impl, U*> : public AtomicBase<Impl, U*> {
   }
 
   U* operator--() noexcept {
+#ifdef YACLIB_VERIF
+    YACLIB_VERIF_ATOMIC(::yaclib::verif::kRmw, std::memory_order_seq_cst, std::memory_order_seq_cst, nullptr);
+#endif
     YACLIB_INJECT_FAULT(auto* r = --static_cast<Impl&>(*this));
     return r;
   }
@@ -335,6 +426,9 @@ class Atomic<Impl, U*> : public AtomicBase<Impl, U*> {
   }
 
   U* operator--(int) noexcept {
+#ifdef YACLIB_VERIF
+    YACLIB_VERIF_ATOMIC(::yaclib::verif::kRmw, std::memory_order_seq_cst, std::memory_order_seq_cst, nullptr);
+#endif
     YACLIB_INJECT_FAULT(auto* r = static_cast<Impl&>(*this)--);
     return r;
   }
@@ -344,6 +438,9 @@ class Atomic<Impl, U*> : public AtomicBase<Impl, U*> {
   }
 
   U* operator+=(std::ptrdiff_t arg) noexcept {
+#ifdef YACLIB_VERIF
+    YACLIB_VERIF_ATOMIC(::yaclib::verif::kRmw, std::memory_order_seq_cst, std::memory_order_seq_cst, nullptr);
+#endif
     YACLIB_INJECT_FAULT(auto* r = Impl::operator+=(arg));
     return r;
   }
@@ -353,6 +450,9 @@ class Atomic<Impl, U*> : public AtomicBase<Impl, U*> {
   }
 
   U* operator-=(std::ptrdiff_t arg) noexcept {
+#ifdef YACLIB_VERIF
+    YACLIB_VERIF_ATOMIC(::yaclib::verif::kRmw, std::memory_order_seq_cst, std::memory_order_seq_cst, nullptr);
+#endif
     YACLIB_INJECT_FAULT(auto* r = Impl::operator-=(arg));
     return r;
   }
